@@ -279,4 +279,13 @@ def extra_checks(tier, seed, replay_dir, active_kf=()):
                  "in [a,b], uniform any double in [a,b]; lemma round(k/10**p, p) == k/10**p validated on 2000 concrete k per precision",
         "property": "no exception and start <= result <= end on every path",
         "paths": per_p}}
+    # the composition Generator.visit_float -> Random.random_float -> Validator.visit_float (harness/fp_extra.py)
+    from harness import fp_extra
+    x = fp_extra.run("C01", tier, replay_dir, active_kf)
+    for k in ("obligations", "discharged", "queries", "solver_s", "paths", "replays"):
+        res[k] += x[k]
+    res["inconclusive"] += x["inconclusive"]
+    res["violations"] += x["violations"]
+    res["samples"] += x["samples"]
+    res["coverage"].update(x["coverage"])
     return res
